@@ -36,6 +36,8 @@ def run(tier):
         wants = []
         lines += rg.gen_valid(rng, o, n // 4, wants)
         lines += rg.gen_long_tokens(rng, o, n // 4)
+        if o["unicode"]:
+            lines += rg.gen_escape_offsets(o, 70)
         rk.run_feed(chk, wd, f"json-{rc.opt_name(o)}", lines, None, [(l, bins[l]) for l in labels])
     rk.run_mc(chk, wd, rk.group_by_opts(bins, variants[:2]), [("chars", "chars", 4, [0, 1, 10], "none", D)])
     # MessagePack: every encoding, prefix, corruption and random bytes (bounded kinds only)
